@@ -205,6 +205,7 @@ package queue
 //@   monitor locked
 //@   requires s != nil
 //@   loop 1 invariant [own_maps] inv.itemsByState != nil && fresh(inv.itemsByState) && inv.retainedBytesByState != nil && fresh(inv.retainedBytesByState)
+//@   loop 1 invariant [no_other_counter_map_touched] forall m map[State]int64, k State :: !fresh(m) ==> ((k in m) <==> old(k in m)) && m[k] == old(m[k]) && len(m) == old(len(m))
 //@ func (*MemoryStore).effectiveMemoryPressureItemLimitLocked
 //@   monitor locked
 //@   requires s != nil
